@@ -97,7 +97,9 @@ def judge_op(c):
             verdict, what = "violates", f"input modified: {impl.get('mut')}"
     tag = None
     if verdict == "violates":
-        tag = (guard[0] if guard else "untagged") 
+        cls = "panic" if impl["status"] == "panic" else ("error" if impl["status"] == "error" else
+              ("mutates-input" if what.startswith("input modified") else "wrong"))
+        tag = (guard[0] if guard else "untagged." + str(c.get("op"))) + "." + cls
     return J(corr=corr, verdict=verdict, tag=tag, what=what, key=key)
 
 
